@@ -14,6 +14,7 @@ import QuantityModel.Proofs.Invariants
 import QuantityModel.Proofs.Quantity
 import QuantityModel.Proofs.RegistryTerm
 import QuantityModel.Proofs.Resolve
+import QuantityModel.Proofs.RefUnique
 namespace QM.Props.C02
 open QM QM.QState
 
@@ -148,6 +149,21 @@ theorem resolution_complete (r : RegState)
     (hexp : ∀ a, expOf a (expanded r.unitEnv t) = expOf a K) :
     r.amntAndUnit t ≠ none :=
   amntAndUnit_complete r hd hnc t ht K w hK hKnf hK1 hsep hexp
+
+/-- the same in every registry reachable by well-formed declarations, for
+terms over units that have a scale: no hypothesis on the registry is left
+(`BaseNoConv` and the separation of sort keys are theorems there,
+Proofs/RefUnique.lean) -/
+theorem resolution_complete_reachable (r : RegState) (h : ReachableWF r)
+    (t : Items) (ht : Clean t) (K : Items) (w : Nat) (hK : (K, w) ∈ r.termMap)
+    (hKnf : normalizedItems r.unitEnv K = K) (hK1 : numVal K = 1)
+    (hst : ScaledAtoms r.unitEnv t) (hsK : ScaledAtoms r.unitEnv K)
+    (hexp : ∀ a, expOf a (expanded r.unitEnv t) = expOf a K) :
+    r.amntAndUnit t ≠ none :=
+  amntAndUnit_complete r (defsBaseOnly_of_scaleInv r (reachableWF_scaleInv h))
+    (reachable_baseNoConv h.reachable) t ht K w hK hKnf hK1
+    (keysSeparate_of_scaled r (reachableWF_scaleInv h) (reachable_refInv h.reachable) t K hst hsK)
+    hexp
 
 /-- ... so `unit × unit` raises UndefinedResultError only if no such unit is
 registered (with `unit_product_undefined_iff`: exactly then, for types with
